@@ -555,7 +555,7 @@ def floatLogicOf (u : Uni) (line col : Nat) (m? : Option FloatMatch) : FloatRes 
     let suffix := m.suf.length
     let column := col + m.const.length
     let badhex := stripChars (Generated.hexadecimalDigits.toList ++ ['.']) m.const
-    if m.kind == .exponent && !goodExponent u m.exp then
+    if m.kind != .hexadecimal && !m.exp.isEmpty && !goodExponent u m.exp then
       .tok m (some (mkDiag "BAD_EXPONENT" .error [⟨line, column, some (m.exp.length + suffix), none⟩]))
     else if m.kind == .hexadecimal && !m.const.contains '.' && m.exp.isEmpty then .noMatch
     else if m.kind == .hexadecimal && !(badhex == ['x'] || badhex == ['X']) then
@@ -576,7 +576,7 @@ theorem floatKey_eq (u : Uni) (line col : Nat) (src : List Char) :
       (match floatSel u src with
        | none => none
        | some m =>
-         if m.kind == .exponent && !goodExponent u m.exp then some m
+         if m.kind != .hexadecimal && !m.exp.isEmpty && !goodExponent u m.exp then some m
          else if m.kind == .hexadecimal && !m.const.contains '.' && m.exp.isEmpty then none
          else some m) := by
   rw [floatLogic_of]
@@ -585,7 +585,7 @@ theorem floatKey_eq (u : Uni) (line col : Nat) (src : List Char) :
   | some m =>
     unfold floatLogicOf
     simp only
-    by_cases c1 : (m.kind == .exponent && !goodExponent u m.exp) = true
+    by_cases c1 : (m.kind != .hexadecimal && !m.exp.isEmpty && !goodExponent u m.exp) = true
     · simp only [c1, ↓reduceIte]; rfl
     · simp only [c1, Bool.false_eq_true, ↓reduceIte]
       by_cases c2 : (m.kind == .hexadecimal && !m.const.contains '.' && m.exp.isEmpty) = true
